@@ -115,6 +115,10 @@ class CondGen(object):
             # a macro whose name starts with `if` but which is no conditional (like \ifthenelse, \iflanguage): it does not nest
             self.helpers.add('ifzqmac')
             out += '\\ifzqmac '
+        if getattr(self, 'locif', False) and r.random() < 0.6:
+            # the same, for a macro defined locally in a group that is neither the innermost nor the outermost one
+            out += '\\ifzqloc '
+            self.features.add('if-named-macro-of-an-intermediate-group')
         return out
 
     def conditional(self, depth):
@@ -204,6 +208,17 @@ class CondGen(object):
     def placed(self, depth=1):
         """a conditional placed at top level, in a group, in a macro body or in a macro argument"""
         r = self.r
+        if depth == 1 and not getattr(self, 'locif', False) and r.random() < 0.15:
+            self.locif = True
+            try:
+                c = self.conditional(depth)
+            finally:
+                self.locif = False
+            inner = r.choice(['{%s}', '\\begingroup %s\\endgroup ', '{{%s}}'])
+            if r.random() < 0.3:
+                self.helpers.add('zqid')
+                inner = '\\zqid{%s}'
+            return '{\\def\\ifzqloc{Ql}' + (inner % c) + '}'
         c = self.conditional(depth)
         k = r.random()
         if k < 0.4:
